@@ -298,8 +298,7 @@ theorem ev_coalesce_lit (C : Cx) (sql : Sql) (l : Lit) (va : Val) (h : C.ev sql 
 theorem evc_not (C : Cx) (a : Sql) : C.evc (.not a) = (C.evc a).map K.not := evalCond_not _ _ _ _
 
 theorem negate_val {C : Cx} {e : Expr} {cls : MCls} {ty : Ty} {nl : Bool} {sql : Sql} (hs : valueSorted e = true)
-    (h : ValOK C e ty nl sql)
-    (hpg : C.d.isPg = true → ty = .bool → cls ≠ .attr → nn C.sch e = true) :
+    (h : ValOK C e ty nl sql) :
     C.evc (negate C.d (.val cls ty nl sql)).getsql = some (py C.env e).asK.not := by
   obtain ⟨v, hpy, hty, hev, hnn⟩ := h
   rw [hpy]
@@ -334,7 +333,9 @@ theorem negate_val {C : Cx} {e : Expr} {cls : MCls} {ty : Ty} {nl : Bool} {sql :
       | true =>
         by_cases hc : cls = .attr
         · simp [negate, hd, hc, Monad.getsql, evc_or_pair, evc_not, evc_of_ev C _ _ hev', evc_isNull C _ _ hev', toCond, PyR.asK, K.or, K.ofBool, K.not]
-        · exact absurd (hpg hd rfl hc) (by simp [hn])
+        · simp [negate, hd, hc, Monad.getsql, PyR.asK, K.not]
+          rw [evc_not, evc_of_ev C _ (.bool false) (by rw [ev_coalesce_lit C _ _ _ hev']; simp [sameKind, litVal, hd])]
+          simp [toCond, hd]
   | some x =>
     have hev' : C.ev sql = some (encS C.d x) := hev
     have hne : encS C.d x ≠ .null := encS_ne_null _ _
